@@ -962,7 +962,7 @@ func ruleSetOptionsRendered(c *Ctx) {
 	n := 0
 	for _, x := range []row{
 		{"(*Client).Mail", " BODY=8BITMIME", []string{`Client.ext["8BITMIME"]#1 == true`}},
-		{"(*Client).Mail", " SIZE=", []string{`param2 != nil`, `MailOptions.Size != 0`, `Client.ext["SIZE"]#1 == true`}},
+		{"(*Client).Mail", " SIZE=", []string{`param2 != nil`, `MailOptions.Size > 0`, `Client.ext["SIZE"]#1 == true`}},
 		{"(*Client).Mail", " REQUIRETLS", []string{`param2 != nil`, `MailOptions.RequireTLS == true`, `Client.ext["REQUIRETLS"]#1 == true`}},
 		{"(*Client).Mail", " SMTPUTF8", []string{`param2 != nil`, `MailOptions.UTF8 == true`, `Client.ext["SMTPUTF8"]#1 == true`}},
 		{"(*Client).Mail", " RET=", []string{`param2 != nil`, `MailOptions.Return == "FULL"`, `Client.ext["DSN"]#1 == true`}},
